@@ -238,6 +238,19 @@ fn main() {
         say!("   write ok={r1}, rejected={r2:?}, ok={r3}; output: {:?}", String::from_utf8(w.into_inner()).unwrap());
     }
 
+    say!("== V12 (C09) header_reader() as BufRead: a partial consume truncates the raw header");
+    {
+        use std::io::{BufRead, Read};
+        let text = b"##fileformat=VCFv4.3\n#CHROM\tPOS\tID\tREF\tALT\tQUAL\tFILTER\tINFO\nsq0\t1\t.\tA\t.\t.\t.\t.\n";
+        let mut r = vcf::io::Reader::new(&text[..]);
+        let mut hr = r.header_reader();
+        let mut key = Vec::new();
+        hr.read_until(b'=', &mut key).unwrap();
+        let mut rest = String::new();
+        hr.read_to_string(&mut rest).unwrap();
+        say!("   read_until(b'=') → {:?}; then read_to_string → {:?} (expected the remaining 47 header bytes)", String::from_utf8_lossy(&key), rest);
+    }
+
     say!("== V10 bcf::Record::end() on a telomeric record (POS 0) → todo!()");
     let mut r = rec(vec![], &["GT"], vec![vec![g01()], vec![g01()]]);
     *r.variant_start_mut() = None;
